@@ -112,6 +112,16 @@ fn run_case(ctx: &mut Ctx, c: &Case, class: &str) {
     }
     // the same request through the Exec builder (it has no executable override and no setpgid)
     let via_exec = !c.exe_override && !c.setpgid && c.argv.len() % 3 == 2;
+    // the caller's real and effective ids may differ (a set-uid program, a daemon half-way through dropping privileges):
+    // a requested id is what the child gets as its real, effective and saved id, whatever the caller's happen to be
+    let split_ids = (c.setuid == Some(0) || c.setgid == Some(0)) && c.argv.len() % 2 == 0;
+    if split_ids {
+        ctx.count("launches_from_a_caller_whose_real_and_effective_ids_differ", 1);
+        unsafe {
+            libc::setregid(65534, 0);
+            libc::setreuid(65534, 0);
+        }
+    }
     let m = if via_exec {
         ctx.count("launches_through_the_exec_builder", 1);
         use subprocess::ExecExt;
@@ -139,6 +149,12 @@ fn run_case(ctx: &mut Ctx, c: &Case, class: &str) {
     } else {
         run::monitored(|| Popen::create(&argv, config))
     };
+    if split_ids {
+        unsafe {
+            libc::setreuid(0, 0);
+            libc::setregid(0, 0);
+        }
+    }
     if c.by_name {
         match old_path {
             Some(p) => std::env::set_var("PATH", p),
@@ -220,7 +236,9 @@ fn run_case(ctx: &mut Ctx, c: &Case, class: &str) {
                     // identity
                     let wu = c.setuid.unwrap_or(0);
                     let wg = c.setgid.unwrap_or(0);
-                    if r.uid != wu || r.euid != wu || r.gid != wg || r.egid != wg {
+                    // (an id that was not requested is inherited as it is: real and effective may then differ, as the caller's do)
+                    let (want_ruid, want_rgid) = (if split_ids && c.setuid.is_none() { 65534 } else { wu }, if split_ids && c.setgid.is_none() { 65534 } else { wg });
+                    if r.uid != want_ruid || r.euid != wu || r.gid != want_rgid || r.egid != wg {
                         ctx.violation(
                             &format!("C06/identity/{}", class),
                             &format!("uid/gid differ: want uid {} gid {}, child has uid {} euid {} gid {} egid {}", wu, wg, r.uid, r.euid, r.gid, r.egid),
@@ -476,6 +494,66 @@ pub fn run(ctx: &mut Ctx) {
         ctx.distinct(&format!("dup{}", i));
         ctx.count("duplicate_key_placements", 1);
         run_case(ctx, &c, "dupkeys");
+    });
+    // "the parent's environment when unspecified" is the parent's environment as it is - also when it holds an entry
+    // without '=' or the same name twice (legitimate through execve; getenv sees the first) - not a cleaned-up copy
+    let no = ctx.n(60, 1200);
+    ctx.family("odd-parent-environment", no, |ctx, rng, i| {
+        extern "C" {
+            static mut environ: *mut *mut libc::c_char;
+        }
+        run::begin_case();
+        let dir = ctx.scratch("c06o");
+        let exe = spawn::report_exe(ctx, &dir, "o", "x");
+        // build the odd vector: everything there is, plus a repeated name and an entry without '='
+        let extra: Vec<std::ffi::CString> = vec![
+            std::ffi::CString::new(format!("VERIF_TWICE=first-{}", i)).unwrap(),
+            std::ffi::CString::new("verif_entry_without_equals_sign").unwrap(),
+            std::ffi::CString::new(format!("VERIF_TWICE=second-{}", rng.below(100))).unwrap(),
+        ];
+        let (old, mut vec_ptrs): (*mut *mut libc::c_char, Vec<*mut libc::c_char>) = unsafe {
+            let old = environ;
+            let mut v = vec![];
+            let mut k = 0;
+            while !(*old.offset(k)).is_null() {
+                v.push(*old.offset(k));
+                k += 1;
+            }
+            (old, v)
+        };
+        let at = rng.below(vec_ptrs.len() as u64 + 1) as usize;
+        for (j, e) in extra.iter().enumerate() {
+            vec_ptrs.insert((at + j).min(vec_ptrs.len()), e.as_ptr() as *mut libc::c_char);
+        }
+        let want: Vec<Vec<u8>> = vec_ptrs.iter().map(|p| unsafe { std::ffi::CStr::from_ptr(*p).to_bytes().to_vec() }).collect();
+        vec_ptrs.push(std::ptr::null_mut());
+        unsafe { environ = vec_ptrs.as_mut_ptr() };
+        let route = i % 4;
+        let exe2 = exe.clone();
+        let m = run::monitored(move || -> Result<(), String> {
+            match route {
+                0 => Popen::create(&[exe2.clone().into_os_string()], PopenConfig::default()).and_then(|mut p| p.wait().map(|_| ())),
+                1 => subprocess::Exec::cmd(&exe2).join().map(|_| ()),
+                2 => subprocess::Exec::cmd(&exe2).stdout(Redirection::Pipe).capture().map(|_| ()),
+                _ => (subprocess::Exec::cmd(&exe2) | subprocess::Exec::cmd("true")).join().map(|_| ()),
+            }
+            .map_err(|e| e.to_string())
+        });
+        unsafe { environ = old };
+        drop(vec_ptrs);
+        ctx.count("launches_from_a_parent_with_an_odd_environment_vector", 1);
+        ctx.distinct(&format!("oddenv|{}|{}", route, at % 5));
+        match (m.result, spawn::get_report(&exe, 3000)) {
+            (Some(Ok(())), Some(r)) => {
+                ctx.count("children_inspected", 1);
+                if r.env != want {
+                    let missing: Vec<String> = want.iter().filter(|e| !r.env.contains(e)).take(4).map(|e| crate::json::show_bytes(e, 50)).collect();
+                    ctx.violation("C06/env/inherited-not-verbatim", "no environment was requested, yet the child's environment is not the parent's environment vector as it is", J::obj().set("parent_entries", J::i(want.len() as i64)).set("child_entries", J::i(r.env.len() as i64)).set("missing_in_child", J::arr_s(&missing)));
+                }
+            }
+            (res, _) => ctx.inconclusive("launch under an odd environment vector did not run", J::s(&format!("{:?}", res))),
+        }
+        run::end_case();
     });
     // the parent has no PATH (or an empty one) and the program is a bare name; whatever program of that name the launch
     // finds (one in the working directory, one on a default path), it is given exactly the environment that was requested
